@@ -431,4 +431,58 @@ example : ∃ r, runChain [([(1, 10), (2, 20)], false), ([(2, 21), (3, 30)], tru
   refine ⟨_, rfl, ?_⟩
   decide
 
+/-! ### where a partition says its entries live (fix F29)
+
+`PicklePartitionStrategy.store` records on an in-memory / on-disk partition object the index it wrote **and the data source it wrote
+it to** (`_output_keys`, `_parent_data_source`); a later merge copies the parent's entries into the child's index as references into
+that data source. Assigning a partition to a key of an `OnDiskPartition` also runs `store`, against that partition's temporary
+staging area. The record below adds the data source to `recorded`; `recordAfter` is the last statement of `store` (with the fix:
+a staging area never replaces the record; `recordAfterUnfixed` is the code before F29). -/
+
+inductive Area
+  | cluster            -- the data source of the cluster's storage backend
+  | staging (n : Nat)  -- the temporary directory of the n-th `OnDiskPartition`
+deriving DecidableEq, Repr
+
+abbrev Where := Option (Area × Index)
+
+def recordAfter (ds : Area) (ix : Index) (r : Where) : Where :=
+  match ds with
+  | .staging _ => r
+  | .cluster => some (.cluster, ix)
+
+def recordAfterUnfixed (ds : Area) (ix : Index) (_ : Where) : Where := some (ds, ix)
+
+/-- the record after any sequence of writes of the object (to the cluster's store, to staging areas, in any order) -/
+def recordAfterAll (r : Where) : List (Area × Index) → Where
+  | [] => r
+  | (ds, ix) :: rest => recordAfterAll (recordAfter ds ix r) rest
+
+/-- a record never points into a staging area, whatever the object was assigned to and however often -/
+theorem record_never_in_staging (ws : List (Area × Index)) (r : Where)
+    (hr : ∀ a ix, r = some (a, ix) → a = .cluster) :
+    ∀ a ix, recordAfterAll r ws = some (a, ix) → a = .cluster := by
+  induction ws generalizing r with
+  | nil => exact hr
+  | cons w ws ih =>
+    obtain ⟨ds, ix⟩ := w
+    apply ih
+    intro a ix' h
+    cases ds with
+    | staging n => exact hr a ix' h
+    | cluster =>
+      simp only [recordAfter, Option.some.injEq, Prod.mk.injEq] at h
+      exact h.1.symm
+
+/-- staging leaves the record exactly as it was: what a later merge copies is what the last write to the cluster's store recorded -/
+theorem staging_keeps_record (n : Nat) (ix : Index) (r : Where) : recordAfter (.staging n) ix r = r := rfl
+
+theorem cluster_write_records (ix : Index) (r : Where) : recordAfter .cluster ix r = some (.cluster, ix) := rfl
+
+/-- before F29 the record followed the last write, wherever it went: memoized, then staged = pointing into the staging area -/
+example : recordAfterUnfixed (.staging 0) [(1, 10, false)] (recordAfterUnfixed .cluster [(1, 10, false)] none) =
+    some (.staging 0, [(1, 10, false)]) := rfl
+example : recordAfterAll none [(.cluster, [(1, 10, false)]), (.staging 0, [(1, 10, false)]), (.staging 1, [])] =
+    some (.cluster, [(1, 10, false)]) := rfl
+
 end Memento.Partition
